@@ -149,6 +149,20 @@ def L(cid: int):  # noqa: N802
             fn(f"O{u}/M{u}/I{u}/d", ["self"]), fn(f"O{u}/M{u}/e", ["self"]),
         ),
     )
+    letters["nested_attrs"] = (
+        f"class NO{u}:\n    shared: int = 1\n    only_outer: int = 2\n\n    def __init__(self) -> None:\n        self.inst_shared = 1\n\n"
+        f"    class NI{u}:\n        shared: float = 1.0\n        twice: float = 0.5\n\n        def __init__(self, t: float) -> None:\n            self.twice = t\n            self.inst_shared = t\n\n"
+        f"        class ND{u}:\n            shared: str = 's'\n",
+        {
+            "classes": {f"NO{u}": {"attributes": [f"NO{u}/shared", f"NO{u}/only_outer", f"NO{u}/inst_shared"], "classes": [f"NO{u}/NI{u}"]},
+                        f"NO{u}/NI{u}": {"attributes": [f"NO{u}/NI{u}/shared", f"NO{u}/NI{u}/twice", f"NO{u}/NI{u}/inst_shared"], "classes": [f"NO{u}/NI{u}/ND{u}"]},
+                        f"NO{u}/NI{u}/ND{u}": {"attributes": [f"NO{u}/NI{u}/ND{u}/shared"]}},
+            "attributes": [f"NO{u}/shared", f"NO{u}/only_outer", f"NO{u}/inst_shared", f"NO{u}/NI{u}/shared", f"NO{u}/NI{u}/twice", f"NO{u}/NI{u}/inst_shared", f"NO{u}/NI{u}/ND{u}/shared"],
+            "functions": {f"NO{u}/__init__": {}, f"NO{u}/NI{u}/__init__": {}},
+            "parameters": {f"NO{u}/__init__/self": {}, f"NO{u}/NI{u}/__init__/self": {}, f"NO{u}/NI{u}/__init__/t": {}},
+            "results": [],
+        },
+    )
     letters["bases_local"] = (
         f"class A{u}:\n    pass\n\n\nclass B{u}:\n    pass\n\n\nclass D{u}(A{u}, B{u}):\n    pass\n",
         {"classes": {f"A{u}": {"superclasses": []}, f"B{u}": {"superclasses": []}, f"D{u}": {"superclasses": [f"@MODQ@.A{u}", f"@MODQ@.B{u}"]}}},
@@ -203,7 +217,7 @@ def run(rep: Report, tier: str, seed: int) -> None:
     uid = itertools.count(1)
     for a in LETTER_NAMES:
         units.append((next(uid), (a,)))
-    pair_letters = LETTER_NAMES if tier == "thorough" else ["func", "class", "bases_local", "bases_imported", "enum", "enum_in_class", "property_setter", "private_class", "nested2"]
+    pair_letters = LETTER_NAMES if tier == "thorough" else ["func", "class", "nested_attrs", "bases_local", "bases_imported", "enum", "enum_in_class", "property_setter", "private_class", "nested2"]
     for a, b in itertools.permutations(pair_letters, 2):
         units.append((next(uid), (a, b)))
     rep.rule = (
